@@ -37,6 +37,10 @@ spec fn byte_len<L: EdgeLabel>(p: Seq<L>) -> nat
     if p.len() == 0 { 0 } else { byte_len(p.drop_last()) + p.last().nb() }
 }
 
+// the state `add` leaves behind: no fail link and no output position assigned yet
+spec fn fresh_links<L, V>(n: NfaBuilder<L, V>) -> bool {
+    forall|s: int| 0 <= s < n.states@.len() ==> (#[trigger] n.states@[s]).fail == 0 && n.states@[s].output_pos.is_none()
+}
 // invariant of the builder between calls of add
 spec fn add_inv<L: EdgeLabel, V>(n: NfaBuilder<L, V>) -> bool {
     &&& trie_ok(n)
